@@ -46,10 +46,13 @@ Record cfg := mkcfg {
   fix_db_id : bool;          (* C08-db-prior-id: Prior rows store prior.id instead of prior.id_ (= message.id_) *)
   fix_loggaussian : bool;    (* C08-dict-loggaussian: LogGaussianPrior.dict writes mean and sigma *)
   fix_chain : bool;          (* C08-db-chained-assertion: Compound rows accept CompoundAssertion *)
-  fix_falsy : bool           (* C08-dict-falsy-constant: the "dict" branch of from_dict keeps falsy values *)
+  fix_falsy : bool;          (* C08-dict-falsy-constant: the "dict" branch of from_dict keeps falsy values *)
+  fix_instance : bool        (* C08-dict-instance-exact (proposed): a Model without free parameters is written as type
+                                "instance" only when cls(kw-arguments) rebuilds it exactly, otherwise as type "model" *)
 }.
-Definition cfg_pinned := mkcfg false false false false.
-Definition cfg_fixed := mkcfg true true true true.
+Definition cfg_pinned := mkcfg false false false false false.
+Definition cfg_fixed := mkcfg true true true true false.      (* /repo as it is (111eb99, a2e2dae, a21f2bc, 04fca50) *)
+Definition cfg_next := mkcfg true true true true true.        (* with proposed_fixes/C08-dict-instance-exact.diff *)
 
 Definition bind {A B} (x : outcome A) (f : A -> outcome B) : outcome B :=
   match x with Ok a => f a | Err e => Err e end.
@@ -243,15 +246,32 @@ Section C08.
   Definition has_extras (ctor : list string) (ch : list (string * snode)) : bool :=
     existsb (fun kv => negb (existsb (String.eqb (fst kv)) ctor)) ch.
 
+  (* can cls(kw-arguments) rebuild this parameter-free component exactly: every attribute a constructor
+     argument, no tuple prior, every component it holds likewise *)
+  Fixpoint inst_exact (n : snode) : bool :=
+    match n with
+    | SConst _ | SDict _ => true
+    | SPrior _ _ => false
+    | SNode (KModel _ ctor) ch _ =>
+        negb (has_extras ctor ch) &&
+        (fix go (ch : list (string * snode)) : bool :=
+           match ch with [] => true | (_, c) :: r => inst_exact c && go r end) ch
+    | SNode (KInst _ _) _ _ => true
+    | SNode _ _ _ => false
+    end.
+
   (* dict(): an AbstractPriorModel that is not a Collection and has prior_count = 0 is written as
-     type "instance"; from_dict then CALLS cls(kw-arguments) *)
+     type "instance" (with the proposed repair: only when that is exact); from_dict then CALLS cls(kw-arguments) *)
   Definition as_instance (n : snode) : bool :=
-    match n with SNode (KModel _ _) _ _ => no_priors n | _ => false end.
+    match n with
+    | SNode (KModel _ _) _ _ => no_priors n && (negb (fix_instance cf) || inst_exact n)
+    | _ => false
+    end.
 
   Definition dict_pre (n : snode) : option err :=
     match n with
     | SNode (KModel _ ctor) ch _ =>
-        if no_priors n && has_extras ctor ch then Some ETypeError else None     (* unexpected keyword argument *)
+        if as_instance n && has_extras ctor ch then Some ETypeError else None     (* unexpected keyword argument *)
     | _ => None
     end.
 
@@ -260,7 +280,7 @@ Section C08.
 
   Definition dict_post (n : snode) (ch : list (string * snode)) (asr : list assertion) : snode :=
     match n with
-    | SNode (KModel cls ctor) _ _ => if no_priors n then SNode (KInst cls ctor) ch [] else SNode (KModel cls ctor) ch asr
+    | SNode (KModel cls ctor) _ _ => if as_instance n then SNode (KInst cls ctor) ch [] else SNode (KModel cls ctor) ch asr
     | SNode (KBin o) _ _ =>
         match ch with
         | [(_, l); (_, r)] =>
